@@ -16,7 +16,7 @@ Theorem C05_readall :
     read_all H comb fixed fuel src dg sz = ((None, buf), v) ->
     matches_desc H dg sz buf /\
     (exists rest, stream (b_evs src) = buf ++ rest) /\
-    (b_lim src = None -> stream (b_evs src) = buf).
+    (b_lim src = None -> neof (b_evs src) = 0%nat -> stream (b_evs src) = buf).
 Proof. exact read_all_sound. Qed.
 Print Assumptions C05_readall.
 
@@ -25,7 +25,7 @@ Print Assumptions C05_readall.
    that does not have the descriptor yet stores it *)
 Theorem C05_readall_complete :
   forall (H : str -> str -> str) comb fixed fuel evs dg,
-    nfail evs = 0%nat -> valid_digest dg = true -> dg = digest_of H (alg_of dg) (stream evs) ->
+    (nfail evs + neof evs = 0)%nat -> valid_digest dg = true -> dg = digest_of H (alg_of dg) (stream evs) ->
     (ev_weight evs < fuel)%nat ->
     fst (read_all H comb fixed fuel (mkBase evs None) dg (Z.of_nat (length (stream evs))))
     = (None, stream evs).
@@ -34,7 +34,7 @@ Print Assumptions C05_readall_complete.
 
 Theorem C05_push_memory_complete :
   forall (H : str -> str -> str) comb fixed fuel m d evs,
-    mem_get m d = None -> nfail evs = 0%nat -> valid_digest (d_dg d) = true ->
+    mem_get m d = None -> (nfail evs + neof evs = 0)%nat -> valid_digest (d_dg d) = true ->
     d_dg d = digest_of H (alg_of (d_dg d)) (stream evs) -> d_sz d = Z.of_nat (length (stream evs)) ->
     (ev_weight evs < fuel)%nat ->
     mem_push H comb fixed fuel m d (mkBase evs None) = (None, (d, stream evs) :: m).
@@ -45,7 +45,7 @@ Print Assumptions C05_push_memory_complete.
    that does not hold the digest yet *)
 Theorem C05_copybuffer_complete :
   forall (H : str -> str -> str) comb fuel evs bufsz dg,
-    (1 <= bufsz)%nat -> nfail evs = 0%nat -> valid_digest dg = true ->
+    (1 <= bufsz)%nat -> (nfail evs + neof evs = 0)%nat -> valid_digest dg = true ->
     dg = digest_of H (alg_of dg) (stream evs) -> (ev_weight evs < fuel)%nat ->
     fst (copy_buffer H comb true fuel (mkBase evs None) bufsz dg (Z.of_nat (length (stream evs))))
     = (None, stream evs).
@@ -54,7 +54,7 @@ Print Assumptions C05_copybuffer_complete.
 
 Theorem C05_push_oci_complete :
   forall (H : str -> str -> str) comb fuel s d evs,
-    oci_get s (d_dg d) = None -> nfail evs = 0%nat -> valid_digest (d_dg d) = true ->
+    oci_get s (d_dg d) = None -> (nfail evs + neof evs = 0)%nat -> valid_digest (d_dg d) = true ->
     d_dg d = digest_of H (alg_of (d_dg d)) (stream evs) -> d_sz d = Z.of_nat (length (stream evs)) ->
     (ev_weight evs < fuel)%nat ->
     oci_push H comb true fuel s d (mkBase evs None) = (None, (d_dg d, stream evs) :: s).
@@ -66,7 +66,7 @@ Print Assumptions C05_push_oci_complete.
 Theorem C05_push_file_complete :
   forall (H : str -> str -> str) comb fuel s name path d evs,
     name <> [] -> name_in name (f_names s) = false ->
-    nfail evs = 0%nat -> valid_digest (d_dg d) = true ->
+    (nfail evs + neof evs = 0)%nat -> valid_digest (d_dg d) = true ->
     d_dg d = digest_of H (alg_of (d_dg d)) (stream evs) -> d_sz d = Z.of_nat (length (stream evs)) ->
     (ev_weight evs < fuel)%nat ->
     file_push H comb true fuel s name path d evs
@@ -77,7 +77,7 @@ Print Assumptions C05_push_file_complete.
 
 Theorem C05_push_limited_complete :
   forall (H : str -> str -> str) comb fixed fuel limit m d evs,
-    (d_sz d <= limit)%Z -> mem_get m d = None -> nfail evs = 0%nat -> valid_digest (d_dg d) = true ->
+    (d_sz d <= limit)%Z -> mem_get m d = None -> (nfail evs + neof evs = 0)%nat -> valid_digest (d_dg d) = true ->
     d_dg d = digest_of H (alg_of (d_dg d)) (stream evs) -> d_sz d = Z.of_nat (length (stream evs)) ->
     (ev_weight evs < fuel)%nat ->
     limited_push (mem_push H comb fixed fuel) limit m d evs = (None, (d, stream evs) :: m).
@@ -87,7 +87,7 @@ Print Assumptions C05_push_limited_complete.
 Theorem C05_push_file_fallback_complete :
   forall (H : str -> str -> str) comb fuel s path d evs,
     (d_sz d <= defaultFallbackPushSizeLimit)%Z -> mem_get (f_fb s) d = None ->
-    nfail evs = 0%nat -> valid_digest (d_dg d) = true ->
+    (nfail evs + neof evs = 0)%nat -> valid_digest (d_dg d) = true ->
     d_dg d = digest_of H (alg_of (d_dg d)) (stream evs) -> d_sz d = Z.of_nat (length (stream evs)) ->
     (ev_weight evs < fuel)%nat ->
     file_push H comb true fuel s [] path d evs
@@ -124,7 +124,7 @@ Theorem C05_verify_reader :
     vr_verify H comb fuel dg v = (None, v') ->
     matches_desc H dg sz out /\
     (exists rest, stream (b_evs src) = out ++ rest) /\
-    (b_lim src = None -> stream (b_evs src) = out) /\
+    (b_lim src = None -> neof (b_evs src) = 0%nat -> stream (b_evs src) = out) /\
     (forall k, vr_read comb v' k = (([], Some EEof), v')) /\
     vr_verify H comb fuel dg v' = (None, v').
 Proof. exact verify_reader_sound. Qed.
@@ -137,7 +137,7 @@ Theorem C05_copybuffer :
     copy_buffer H comb true fuel src bufsz dg sz = ((None, out), v) ->
     matches_desc H dg sz out /\
     (exists rest, stream (b_evs src) = out ++ rest) /\
-    (b_lim src = None -> stream (b_evs src) = out).
+    (b_lim src = None -> neof (b_evs src) = 0%nat -> stream (b_evs src) = out).
 Proof. exact copy_buffer_sound. Qed.
 Print Assumptions C05_copybuffer.
 
@@ -150,7 +150,7 @@ Theorem C05_copybuffer_faulty_destination :
     copy_buffer H comb true fuel src bufsz dg sz = ((None, out), v) /\
     (w_mode w <> None -> (length out <= w_left w)%nat) /\
     matches_desc H dg sz out /\
-    (b_lim src = None -> stream (b_evs src) = out).
+    (b_lim src = None -> neof (b_evs src) = 0%nat -> stream (b_evs src) = out).
 Proof. exact copy_buffer_w_sound. Qed.
 Print Assumptions C05_copybuffer_faulty_destination.
 
@@ -170,7 +170,7 @@ Print Assumptions C05_copybuffer_bufsz_independent.
    that do not hold the descriptor yet accept the same pushes and store the same bytes *)
 Theorem C05_paths_agree :
   forall (H : str -> str -> str) comb fuel evs bufsz dg sz buf,
-    (1 <= bufsz)%nat -> (ev_weight evs < fuel)%nat ->
+    (1 <= bufsz)%nat -> (ev_weight evs < fuel)%nat -> neof evs = 0%nat ->
     (fst (read_all H comb true fuel (mkBase evs None) dg sz) = (None, buf) <->
      fst (copy_buffer H comb true fuel (mkBase evs None) bufsz dg sz) = (None, buf)).
 Proof. exact paths_agree. Qed.
@@ -178,7 +178,7 @@ Print Assumptions C05_paths_agree.
 
 Theorem C05_stores_agree :
   forall (H : str -> str -> str) comb fuel m s d evs buf,
-    (ev_weight evs < fuel)%nat -> mem_get m d = None -> oci_get s (d_dg d) = None ->
+    (ev_weight evs < fuel)%nat -> neof evs = 0%nat -> mem_get m d = None -> oci_get s (d_dg d) = None ->
     (mem_push H comb true fuel m d (mkBase evs None) = (None, (d, buf) :: m) <->
      oci_push H comb true fuel s d (mkBase evs None) = (None, (d_dg d, buf) :: s)).
 Proof. exact stores_agree. Qed.
@@ -191,7 +191,7 @@ Theorem C05_trailing_short_malformed_rejected :
     (valid_digest dg = false \/ (sz < 0)%Z \/
      (Z.of_nat (length (stream (b_evs src))) < sz)%Z \/
      dg <> digest_of H (alg_of dg) (firstn (Z.to_nat sz) (stream (b_evs src))) \/
-     (b_lim src = None /\ (sz < Z.of_nat (length (stream (b_evs src))))%Z)) ->
+     (b_lim src = None /\ neof (b_evs src) = 0%nat /\ (sz < Z.of_nat (length (stream (b_evs src))))%Z)) ->
     (forall fixed buf v, read_all H comb fixed fuel src dg sz <> ((None, buf), v)) /\
     (forall out v, copy_buffer H comb true fuel src bufsz dg sz <> ((None, out), v)).
 Proof. exact C05_trailing_short_malformed_rejected_l. Qed.
@@ -201,7 +201,7 @@ Print Assumptions C05_trailing_short_malformed_rejected.
    accepted (ReadAll, CopyBuffer with any buffer, memory / OCI / named file push) *)
 Theorem C05_failing_reader_rejected :
   forall (H : str -> str -> str) comb fuel evs d,
-    In Fail evs ->
+    In Fail evs -> neof evs = 0%nat ->
     (forall fixed buf v, read_all H comb fixed fuel (mkBase evs None) (d_dg d) (d_sz d) <> ((None, buf), v)) /\
     (forall bufsz out v, copy_buffer H comb true fuel (mkBase evs None) bufsz (d_dg d) (d_sz d) <> ((None, out), v)) /\
     (forall fixed m e m', mem_push H comb fixed fuel m d (mkBase evs None) = (e, m') -> e <> None /\ m' = m) /\
@@ -231,7 +231,7 @@ Theorem C05_push_memory :
     (e = None /\ mem_get m d = None /\
      exists buf, m' = (d, buf) :: m /\ matches_desc H (d_dg d) (d_sz d) buf /\
                  (exists rest, stream (b_evs src) = buf ++ rest) /\
-                 (b_lim src = None -> stream (b_evs src) = buf))
+                 (b_lim src = None -> neof (b_evs src) = 0%nat -> stream (b_evs src) = buf))
     \/ (e <> None /\ m' = m).
 Proof. exact mem_push_spec. Qed.
 Print Assumptions C05_push_memory.
@@ -246,7 +246,7 @@ Theorem C05_push_oci :
     (e = None /\ oci_get s (d_dg d) = None /\
      exists out, s' = (d_dg d, out) :: s /\ matches_desc H (d_dg d) (d_sz d) out /\
                  (exists rest, stream (b_evs src) = out ++ rest) /\
-                 (b_lim src = None -> stream (b_evs src) = out))
+                 (b_lim src = None -> neof (b_evs src) = 0%nat -> stream (b_evs src) = out))
     \/ (e <> None /\ s' = s).
 Proof. exact oci_push_spec. Qed.
 Print Assumptions C05_push_oci.
@@ -473,7 +473,7 @@ Theorem C05_concurrent_same_digest :
     (forall i n st' t w, cstep H st i n = Some st' -> nth_error (c_thr st) i = Some t ->
                          t_pc t = PIngest w [] None ->
        exists w', oci_get (c_blobs st') (d_dg (t_d t)) = Some w' /\
-                  matches_desc H (d_dg (t_d t)) (d_sz (t_d t)) w' /\ stream (t_evs t) = w').
+                  matches_desc H (d_dg (t_d t)) (d_sz (t_d t)) w' /\ (neof (t_evs t) = 0%nat -> stream (t_evs t) = w')).
 Proof. exact C05_concurrent_same_digest_l. Qed.
 Print Assumptions C05_concurrent_same_digest.
 
@@ -516,7 +516,7 @@ Theorem C05_concurrent_file :
     (forall i st' t out path, fstep H st i = Some st' -> nth_error (fc_thr st) i = Some t ->
        ft_pc t = FWrite None out path ->
        file_fetch (fc_st st') (ft_name t) (ft_d t) = Some out /\
-       matches_desc H (d_dg (ft_d t)) (d_sz (ft_d t)) out /\ stream (ft_evs t) = out).
+       matches_desc H (d_dg (ft_d t)) (d_sz (ft_d t)) out /\ (neof (ft_evs t) = 0%nat -> stream (ft_evs t) = out)).
 Proof. exact file_concurrent. Qed.
 Print Assumptions C05_concurrent_file.
 
@@ -636,4 +636,14 @@ Example C05_ex_proxy :
   let '((r2, c2), m2) := proxy_fetch toyH None false m1 d false [Data [9]] [5; 1]%nat in
   let '((r3, c3), m3) := proxy_fetch toyH None false [] d false [Data [1;2;3;4]] [3; 5; 1]%nat in
   (c1, m1, map fst r2, c2, c3, m3) = (None, [(d, [1;2;3])], [[1;2;3]; []], None, Some ETrailing, []).
+Proof. vm_compute. reflexivity. Qed.
+
+(* io.EOF is not final for an arbitrary reader: what lies behind an EOF is never read
+   (first script: accepted), an EOF before Size bytes is an error even if more data would
+   follow, and after (data, EOF) in one call more data is trailing data *)
+Example C05_ex_eof_not_final :
+  (fst (read_all toyH false true 20 (mkBase [Data [1;2;3]; Eof; Data [9]] None) (toy_dg [1;2;3]) 3),
+   fst (fst (read_all toyH false true 20 (mkBase [Data [1;2]; Eof; Data [3]] None) (toy_dg [1;2;3]) 3)),
+   fst (fst (copy_buffer toyH true true 20 (mkBase [Data [1;2;3]; Eof; Data [9]] None) 2 (toy_dg [1;2;3]) 3)))
+  = ((None, [1;2;3]), Some EUnexpEof, Some ETrailing).
 Proof. vm_compute. reflexivity. Qed.
